@@ -2,7 +2,7 @@
    on an arbitrary item list; `items` is `lex_limited tl s` of Lex/ when a token limit is set). *)
 From ApolloVerif Require Import Base.Chars Lex.Item Parse.Outcome Parse.Builder Parse.Limits Parse.Monad
   Parse.Grammar Parse.Generic Parse.Entry Parse.LosslessDefs Parse.Lossless Parse.TrackerInst Parse.SilentInst
-  Parse.PulledInst.
+  Parse.PulledInst Lex.Fun Parse.Compose.
 
 Inductive entry := EDoc | ESelSet | EType.
 Definition run (e : entry) : bool -> N -> list item -> poutcome presult :=
@@ -24,6 +24,20 @@ Check C04_prefix : forall e dbg rl items r,
   Forall item_name_ok items -> run e dbg rl items = POk r -> ~ Known_D3 r ->
   exists suf, p_text_of (pr_tree r) ++ suf = concat (map item_data items).
 Print Assumptions C04_prefix.
+
+(* ... on source strings: with any token limit and recursion limit the tree text is a prefix of the source *)
+Theorem C04_prefix_source : forall e dbg tl rl s r,
+  run e dbg rl (lex_for tl s) = POk r -> ~ Known_D3 r ->
+  exists suf, p_text_of (pr_tree r) ++ suf = s.
+Proof.
+  intros e dbg tl rl s r E Hk.
+  destruct (C04_prefix e dbg rl _ r (lex_for_names_ok tl s) E Hk) as [suf1 H1].
+  destruct (lex_for_prefix tl s) as [suf2 H2]. exists (suf1 ++ suf2). rewrite app_assoc, H1. exact H2.
+Qed.
+Check C04_prefix_source : forall e dbg tl rl s r,
+  run e dbg rl (lex_for tl s) = POk r -> ~ Known_D3 r ->
+  exists suf, p_text_of (pr_tree r) ++ suf = s.
+Print Assumptions C04_prefix_source.
 
 (* the recursion tracker: balanced (current is back to 0), never above the limit, high <= limit + 1 *)
 Theorem C04_tracker_inv : forall e dbg rl items r,
